@@ -168,8 +168,8 @@ Definition chk_reopen_ds (live file:fview) : bool :=
 Definition code_of {A} (r:res A) : Z :=
   match r with Ok _ => 0 | Raise c => c | OOB _ => -1 | OutOfFuel => -3 end.
 
-Definition verdicts (p:op) (code:Z) (o o':obs) : list bool :=
-  [chk_inv o'; chk_data o o'; chk_rename p (code =? 0) o o'; chk_move p (code =? 0) o o'].
+Definition verdicts (p:op) (ok:bool) (o o':obs) : list bool :=
+  [chk_inv o'; chk_data o o'; chk_rename p ok o o'; chk_move p ok o o'].
 
 Definition all_true (l:list bool) : bool := forallb (fun b => b) l.
 
@@ -183,7 +183,7 @@ Fixpoint run_trace (c:cfg) (ops:list op) (s:state) (held:list Z) : list stepres 
       let (s', r) := step c p s in
       let held' := rescan s' held in
       let o' := observe s' held' in
-      let fl := verdicts p (code_of r) o o' in
+      let fl := verdicts p (is_ok r) o o' in
       if all_true fl then
         let (rest, sf) := run_trace c t s' held' in (mkStepres (code_of r) o' fl :: rest, sf)
       else ([mkStepres (code_of r) o' fl], s')
